@@ -175,6 +175,9 @@ class Repartition(Expr):
 
     @functools.cached_property
     def new_partitions(self):
+        if "new_partitions" not in self._parameters:
+            # e.g. RepartitionDivisions: not defined by a partition count
+            return None
         return (
             self.operand("new_partitions")(self.frame.npartitions)
             if isinstance(self.operand("new_partitions"), Callable)
